@@ -25,12 +25,37 @@ def Eqn.paren : Eqn → Eqn
     if isCall o then .bin o l.paren r.paren
     else .bin o (grp (leftParens o l) l.paren) (grp (rightParens o r) r.paren)
 
-/-- equations of the public constructors over simple constants: `Not` and the 19 binary constructors
-(all `Eqn.ok` equations without `Get`/`Length`/`Count` nodes, floats, lists, regexes) -/
+/-- equations in the form the reader builds them: `!`, the 19 binary operators, `length`/`count` of a path,
+over constants in the reader's form (`Val.simple`: scalars, finite floats with `.`/exponent, regexes
+`AppendString` leaves alone, flat lists, filter-free paths). The constructors' equations (`Eqn.okC`, with
+`Get(path)` nodes, any float text, any slice/wildcard form in paths) are mapped into this class by
+`Eqn.leafy` without changing any text or template (LemmasLeafy). -/
 def Eqn.okS : Eqn → Bool
   | .val v => v.simple
-  | .un o l => o == Gen.JpOps.op_not && l.okS
+  | .un o l => (o == Gen.JpOps.op_not && l.okS) || ((o == Gen.JpOps.op_length || o == Gen.JpOps.op_count) && l.isPathVal)
   | .bin o l r => binOps.contains o && (l.okS && r.okS)
+
+theorem isPathVal_iff {l : Eqn} (h : l.isPathVal = true) : ∃ x, l = .val (.expr x) ∧ pathLeaf x = true := by
+  cases l with
+  | val v => cases v <;> simp [Eqn.isPathVal] at h; exact ⟨_, rfl, h⟩
+  | un o l => simp [Eqn.isPathVal] at h
+  | bin o l r => simp [Eqn.isPathVal] at h
+
+/-- the two kinds of unary nodes of the class -/
+theorem okS_un_cases {o : Op} {l : Eqn} (h : (Eqn.un o l).okS = true) :
+    (o = Gen.JpOps.op_not ∧ l.okS = true) ∨
+    ((o = Gen.JpOps.op_length ∨ o = Gen.JpOps.op_count) ∧ ∃ x, l = .val (.expr x) ∧ pathLeaf x = true) := by
+  simp only [Eqn.okS, Bool.or_eq_true, Bool.and_eq_true, beq_iff_eq] at h
+  rcases h with h | h
+  · exact Or.inl h
+  · exact Or.inr ⟨h.1, isPathVal_iff h.2⟩
+
+theorem len_facts : ∀ o : Op, (o = Gen.JpOps.op_length ∨ o = Gen.JpOps.op_count) →
+    isCode o Gen.JpOps.op_not = false ∧ isCode o Gen.JpOps.op_get = false ∧ isCode o Gen.JpOps.op_group = false ∧
+    (isCode o Gen.JpOps.op_length || isCode o Gen.JpOps.op_count) = true ∧ o.prec = 0 ∧ noParensCode o = true ∧
+    isCall o = false ∧ o.isInfix = false ∧ o.cnt = 1 := by
+  intro o h
+  rcases h with h | h <;> subst h <;> decide
 
 /-- facts about the 19 binary constructors, from the regenerated table -/
 theorem binOps_facts : (binOps.all fun o =>
@@ -60,6 +85,7 @@ theorem binOps_fact {o : Op} (h : binOps.contains o = true) :
 theorem not_facts : isCode Gen.JpOps.op_not Gen.JpOps.op_group = false ∧ Gen.JpOps.op_not.prec = 0 ∧
     Gen.JpOps.op_group.prec = 0 ∧ isCode Gen.JpOps.op_group Gen.JpOps.op_group = true ∧
     isCode Gen.JpOps.op_not Gen.JpOps.op_not = true ∧ Gen.JpOps.op_not.name = [33] ∧
+    isCode Gen.JpOps.op_not Gen.JpOps.op_length = false ∧ isCode Gen.JpOps.op_not Gen.JpOps.op_count = false ∧
     noParensCode Gen.JpOps.op_not = true ∧ noParensCode Gen.JpOps.op_group = true ∧
     isCode Gen.JpOps.op_group Gen.JpOps.op_not = false ∧ isCode Gen.JpOps.op_group Gen.JpOps.op_get = false ∧
     isCode Gen.JpOps.op_group Gen.JpOps.op_length = false ∧ isCode Gen.JpOps.op_group Gen.JpOps.op_count = false ∧
@@ -72,8 +98,9 @@ theorem isInfix_okS : ∀ e : Eqn, e.okS = true → e.isInfix = (match e with | 
   cases e with
   | val v => rfl
   | un o l =>
-    simp only [Eqn.okS, Bool.and_eq_true, beq_iff_eq] at h
-    simp [Eqn.isInfix, Eqn.infixPrec?, h.1, not_facts]
+    rcases okS_un_cases h with h | ⟨h, _⟩
+    · simp [Eqn.isInfix, Eqn.infixPrec?, h.1, not_facts]
+    · simp [Eqn.isInfix, Eqn.infixPrec?, (len_facts o h).2.2.2.2.2.1]
   | bin o l r =>
     simp only [Eqn.okS, Bool.and_eq_true] at h
     have hb := binOps_fact h.1
@@ -85,8 +112,9 @@ theorem infixPrec_okS : ∀ e : Eqn, e.okS = true → e.infixPrec? = if e.isInfi
   cases e with
   | val v => rfl
   | un o l =>
-    simp only [Eqn.okS, Bool.and_eq_true, beq_iff_eq] at h
-    simp [Eqn.isInfix, Eqn.infixPrec?, h.1, not_facts]
+    rcases okS_un_cases h with h | ⟨h, _⟩
+    · simp [Eqn.isInfix, Eqn.infixPrec?, h.1, not_facts]
+    · simp [Eqn.isInfix, Eqn.infixPrec?, (len_facts o h).2.2.2.2.2.1]
   | bin o l r =>
     simp only [Eqn.okS, Bool.and_eq_true] at h
     simp only [Eqn.isInfix, Eqn.infixPrec?]
@@ -101,8 +129,9 @@ theorem topPrec_paren_noninfix : ∀ e : Eqn, e.okS = true → e.isInfix = false
   cases e with
   | val v => rfl
   | un o l =>
-    simp only [Eqn.okS, Bool.and_eq_true, beq_iff_eq] at h
-    simp [Eqn.paren, topPrec, Eqn.op?, h.1, not_facts]
+    rcases okS_un_cases h with h | ⟨h, _⟩
+    · simp [Eqn.paren, topPrec, Eqn.op?, h.1, not_facts]
+    · simp [Eqn.paren, topPrec, Eqn.op?, (len_facts o h).2.2.2.2.1]
   | bin o l r =>
     have hi2 : (Eqn.bin o l r).isInfix = o.isInfix := isInfix_okS _ h
     simp only [Eqn.okS, Bool.and_eq_true] at h
@@ -141,13 +170,17 @@ theorem print_paren : ∀ (e : Eqn), e.okS = true → ∀ p : Bool,
   | un o l ih =>
     intro h p
     have hi := isInfix_okS _ h
-    simp only [Eqn.okS, Bool.and_eq_true, beq_iff_eq] at h
-    obtain ⟨ho, hl⟩ := h
-    subst ho
-    simp only at hi
-    simp only [hi, Eqn.isVal, Bool.or_self, Bool.and_false, grp, Bool.false_eq_true, if_false, Eqn.paren, Eqn.text, not_facts, Eqn.print, if_true,
-      ih hl, Option.map_some, Bool.not_true, wrapParens]
-    cases l.isInfix <;> simp
+    rcases okS_un_cases h with ⟨ho, hl⟩ | ⟨ho, x, hx, _⟩
+    · subst ho
+      simp only at hi
+      simp only [hi, Eqn.isVal, Bool.or_self, Bool.and_false, grp, Bool.false_eq_true, if_false, Eqn.paren, Eqn.text, not_facts, Eqn.print, if_true,
+        ih hl, Option.map_some, Bool.not_true, wrapParens]
+      cases l.isInfix <;> simp
+    · subst hx
+      have lf := len_facts o ho
+      simp only at hi
+      simp [Eqn.isVal, grp, Eqn.paren, Eqn.text, Eqn.print, lf.1, lf.2.1, lf.2.2.1, lf.2.2.2.1, lf.2.2.2.2.2.1,
+        Eqn.resultOf, Eqn.isInfix, Eqn.infixPrec?, wrapParens]
   | bin o l r ihl ihr =>
     intro h p
     have hi := isInfix_okS _ h
@@ -188,8 +221,10 @@ theorem pd_paren : ∀ e : Eqn, e.okS = true → e.paren.pd = true := by
   | val v => intro _; rfl
   | un o l ih =>
     intro h
-    simp only [Eqn.okS, Bool.and_eq_true, beq_iff_eq] at h
-    simp [Eqn.paren, Eqn.pd, h.1, not_facts, pd_grp _ _ (ih h.2)]
+    rcases okS_un_cases h with h | ⟨ho, x, hx, _⟩
+    · simp [Eqn.paren, Eqn.pd, h.1, not_facts, pd_grp _ _ (ih h.2)]
+    · subst hx
+      simp [Eqn.paren, Eqn.pd, (len_facts o ho).2.2.2.2.1, grp, Eqn.isInfix, Eqn.infixPrec?]
   | bin o l r ihl ihr =>
     intro h
     simp only [Eqn.okS, Bool.and_eq_true] at h
@@ -252,7 +287,8 @@ theorem text_chainify : ∀ g : Eqn, (chainify g).text = g.text := by
 /-- trees (with `group` nodes) whose text the reader lemma covers -/
 def Eqn.readable : Eqn → Bool
   | .val v => v.simple
-  | .un o l => (o == Gen.JpOps.op_not && (l.isAtom && l.readable)) || (o == Gen.JpOps.op_group && l.readable)
+  | .un o l => (o == Gen.JpOps.op_not && (l.isAtom && l.readable)) || (o == Gen.JpOps.op_group && l.readable) ||
+      ((o == Gen.JpOps.op_length || o == Gen.JpOps.op_count) && l.isPathVal)
   | .bin o l r => binOps.contains o && (l.readable && r.readable)
 
 theorem isAtom_chainify (g : Eqn) (h : g.isAtom = true) : (chainify g).isAtom = true := by
@@ -290,9 +326,12 @@ theorem raw_chainify : ∀ g : Eqn, g.readable = true → (chainify g).raw = tru
     intro h
     simp only [Eqn.readable, Bool.or_eq_true, Bool.and_eq_true, beq_iff_eq] at h
     simp only [chainify, Eqn.raw, Bool.or_eq_true, Bool.and_eq_true, beq_iff_eq]
-    rcases h with h | h
-    · exact Or.inl ⟨h.1, isAtom_chainify l h.2.1, ih h.2.2⟩
-    · exact Or.inr ⟨h.1, ih h.2⟩
+    rcases h with (h | h) | h
+    · exact Or.inl (Or.inl ⟨h.1, isAtom_chainify l h.2.1, ih h.2.2⟩)
+    · exact Or.inl (Or.inr ⟨h.1, ih h.2⟩)
+    · obtain ⟨x, hx, hp⟩ := isPathVal_iff h.2
+      subst hx
+      exact Or.inr ⟨h.1, by simpa [chainify, Eqn.isPathVal] using hp⟩
   | bin o l r ihl ihr =>
     intro h
     simp only [Eqn.readable, Bool.and_eq_true] at h
@@ -326,13 +365,17 @@ theorem readable_paren : ∀ e : Eqn, e.okS = true → e.paren.readable = true :
   | val v => intro h; exact h
   | un o l ih =>
     intro h
-    simp only [Eqn.okS, Bool.and_eq_true, beq_iff_eq] at h
-    simp only [Eqn.paren, Eqn.readable, h.1, beq_self_eq_true, Bool.true_and, readable_grp _ _ (ih h.2), Bool.and_true,
-      Bool.or_eq_true]
-    left
-    cases hi : l.isInfix
-    · simpa [grp] using isAtom_paren l h.2 hi
-    · simp [grp, Eqn.isAtom]
+    rcases okS_un_cases h with h | ⟨ho, x, hx, hp⟩
+    · simp only [Eqn.paren, Eqn.readable, h.1, beq_self_eq_true, Bool.true_and, readable_grp _ _ (ih h.2), Bool.and_true,
+        Bool.or_eq_true]
+      left; left
+      cases hi : l.isInfix
+      · simpa [grp] using isAtom_paren l h.2 hi
+      · simp [grp, Eqn.isAtom]
+    · subst hx
+      simp only [Eqn.paren, Eqn.readable, Bool.or_eq_true, Bool.and_eq_true, beq_iff_eq]
+      right
+      exact ⟨ho, by simpa [grp, Eqn.isInfix, Eqn.infixPrec?, Eqn.paren, Eqn.isPathVal] using hp⟩
   | bin o l r ihl ihr =>
     intro h
     simp only [Eqn.okS, Bool.and_eq_true] at h
@@ -367,11 +410,12 @@ theorem reduceGroups_paren : ∀ e : Eqn, e.okS = true → ∀ po, reduceGroups 
   | val v => intro _ po; rfl
   | un o l ih =>
     intro h po
-    simp only [Eqn.okS, Bool.and_eq_true, beq_iff_eq] at h
-    obtain ⟨ho, hl⟩ := h
-    subst ho
-    simp only [Eqn.paren, reduceGroups, dropGroup, not_facts, Bool.false_and, Bool.false_eq_true, if_false]
-    rw [reduceGroups_grp _ _ _ (ih hl) (by intro _; simp [not_facts])]
+    rcases okS_un_cases h with ⟨ho, hl⟩ | ⟨ho, x, hx, _⟩
+    · subst ho
+      simp only [Eqn.paren, reduceGroups, dropGroup, not_facts, Bool.false_and, Bool.false_eq_true, if_false]
+      rw [reduceGroups_grp _ _ _ (ih hl) (by intro _; simp [not_facts])]
+    · subst hx
+      simp [Eqn.paren, reduceGroups, dropGroup, (len_facts o ho).2.2.1, grp, Eqn.isInfix, Eqn.infixPrec?]
   | bin o l r ihl ihr =>
     intro h po
     simp only [Eqn.okS, Bool.and_eq_true] at h
@@ -415,14 +459,17 @@ theorem print_grp (q : Bool) (l : Eqn) (hq : q = true → l.isInfix = true) (ih 
   | false => subst hflag; simp [grp, ih]
   | true => subst hflag; simp only [grp, if_true, print_group, isInfix_paren, ih, hq rfl]
 
+theorem paren_path (o : Op) (v : Val) : (Eqn.un o (.val v)).paren = .un o (.val v) := by
+  simp [Eqn.paren, grp, Eqn.isInfix, Eqn.infixPrec?]
+
 theorem print_paren_self : ∀ e : Eqn, e.okS = true → ∀ p, e.paren.print p = e.print p := by
   intro e
   induction e with
   | val v => intro _ p; rfl
   | un o l ih =>
     intro h p
-    simp only [Eqn.okS, Bool.and_eq_true, beq_iff_eq] at h
-    obtain ⟨ho, hl⟩ := h
+    rcases (okS_un_cases h).symm with ⟨ho, x, hx, _⟩ | ⟨ho, hl⟩
+    · subst hx; rw [paren_path]
     subst ho
     simp only [Eqn.paren, Eqn.print, not_facts, if_true]
     have : (grp l.isInfix l.paren).isInfix = false ∨ l.isInfix = false := by
@@ -481,8 +528,8 @@ theorem normL_build_paren : ∀ e : Eqn, e.okS = true → Item.normL e.paren.bui
   | val v => intro _; rfl
   | un o l ih =>
     intro h
-    simp only [Eqn.okS, Bool.and_eq_true, beq_iff_eq] at h
-    obtain ⟨ho, hl⟩ := h
+    rcases (okS_un_cases h).symm with ⟨ho, x, hx, _⟩ | ⟨ho, hl⟩
+    · subst hx; rw [paren_path]
     subst ho
     have : isCode Gen.JpOps.op_not Gen.JpOps.op_get = false := by decide
     simp [Eqn.paren, Eqn.build, this, not_facts, Item.normL, normL_build_grp, ih hl]
